@@ -84,8 +84,8 @@ impl<'a> TapeSrc<'a> {
             self.pos += 1;
             *b
         } else {
-            self.good = false;
-            0
+            // a solver counterexample always provides every value it drew
+            panic!("verif: tape exhausted (value list does not match the harness's draws)");
         }
     }
 }
@@ -113,7 +113,9 @@ impl Src for TapeSrc<'_> {
     }
     fn assume(&mut self, c: bool) {
         if !c {
-            self.good = false;
+            // the solver's counterexamples satisfy every assumption: a violated one
+            // means the tape is not a faithful value list, never a finding
+            panic!("verif: assumption violated (tape outside the harness domain)");
         }
     }
     fn ok(&self) -> bool {
